@@ -8,8 +8,15 @@ package suites
 //	               pushed through Client.Send and a PING is sent by the peer, so that the
 //	               lines the client wrote for this round are exactly those in front of the
 //	               PONG.
-//	cap.ackremoval as cap.session, ACK lines may carry "-name" tokens (capability removal
-//	               acknowledgements); NOT part of conf/C08.json, see notes/findings-cap-sts.md.
+//	cap.ackremoval as cap.session, but the generated ACK lines may carry "-name" tokens
+//	               (IRCv3: the server acknowledges that the capability was DISABLED).
+//
+// The oracle keeps two ledgers of "acknowledged and not since deleted": the IRCv3 reading
+// (a "-name" token removes name) and the literal one (every token is a name).  The property
+// is judged against the first; where the implementation differs from it but agrees with the
+// second, the failure is reported under the narrow class ack-removal-ignored (known finding,
+// notes/proposed-fixes/cap-ack-removal.diff), any other difference under hascap-mismatch /
+// tags-ungated / auth-unconfigured.
 //
 // A session case is: cfg bits, SupportedCaps, probe names, then one argument per CAP event
 // (its Params joined by LF).
@@ -342,7 +349,7 @@ var builtinCapSet = func() map[string]bool {
 	return m
 }()
 
-func runCapSession(c Case, removalAware bool) Result {
+func runCapSession(c Case) Result {
 	if len(c) < 3 {
 		return Result{Obs: "?short-case"}
 	}
@@ -411,8 +418,16 @@ func runCapSession(c Case, removalAware bool) Result {
 		return false
 	}
 	advertised := map[string]bool{}
-	ledger := map[string]bool{} // acknowledged and not since deleted (exact tokens)
-	removed := map[string]bool{}
+	ledger := map[string]bool{}    // acknowledged and not since deleted / disabled (IRCv3 reading)
+	ledgerLit := map[string]bool{} // the same with "-name" read as a capability name
+	lookup := func(l map[string]bool, name string) bool {
+		for t := range l {
+			if asciiLower(t) == asciiLower(name) {
+				return true
+			}
+		}
+		return false
+	}
 	ended := false
 
 	for k, ev := range events {
@@ -435,16 +450,17 @@ func runCapSession(c Case, removalAware bool) Result {
 				}
 			case sub == "ACK" && len(params) == 3:
 				for _, tok := range strings.Split(last, " ") {
-					ledger[tok] = true
-					if removalAware && strings.HasPrefix(tok, "-") && len(tok) > 1 {
-						removed[tok[1:]] = true
+					ledgerLit[tok] = true
+					if strings.HasPrefix(tok, "-") {
+						delete(ledger, tok[1:])
 					} else {
-						delete(removed, tok)
+						ledger[tok] = true
 					}
 				}
 			case sub == "DEL" && len(params) >= 2:
 				for _, tok := range strings.Split(last, " ") {
 					delete(ledger, capTokenName(tok))
+					delete(ledgerLit, capTokenName(tok))
 				}
 			}
 		}
@@ -541,7 +557,11 @@ func runCapSession(c Case, removalAware bool) Result {
 			if got {
 				wantTag := k%4 < 2 && ledger["message-tags"]
 				if tagged != wantTag {
-					fail("tags-ungated", "round %d: tag section present=%v, message-tags acknowledged=%v", k, tagged, ledger["message-tags"])
+					if tagged == (k%4 < 2 && ledgerLit["message-tags"]) {
+						fail("ack-removal-ignored", "round %d: tag section present=%v although the server acknowledged the removal of message-tags (ACK :-message-tags)", k, tagged)
+					} else {
+						fail("tags-ungated", "round %d: tag section present=%v, message-tags acknowledged=%v", k, tagged, ledger["message-tags"])
+					}
 				}
 			}
 		}
@@ -615,7 +635,11 @@ func runCapSession(c Case, removalAware bool) Result {
 				fail("round-open", "round %d: LS answered by %v", k, outs)
 			}
 			if strings.HasPrefix(strings.Join(outs, ","), "AUTH:") && (cc.sasl == "" || !ledger["sasl"]) {
-				fail("auth-unconfigured", "round %d: AUTHENTICATE without SASL configured and acknowledged", k)
+				if cc.sasl != "" && ledgerLit["sasl"] {
+					fail("ack-removal-ignored", "round %d: AUTHENTICATE although the server acknowledged the removal of sasl", k)
+				} else {
+					fail("auth-unconfigured", "round %d: AUTHENTICATE without SASL configured and acknowledged", k)
+				}
 			}
 			sigs[sub+fmt.Sprint(capMin(len(params), 5))+"/"+strings.SplitN(strings.Join(outs, ","), ":", 2)[0]] = true
 		} else {
@@ -635,20 +659,11 @@ func runCapSession(c Case, removalAware bool) Result {
 					continue
 				}
 				obs.WriteString(B(has))
-				want := false
-				for t := range ledger {
-					if asciiLower(t) == asciiLower(p) {
-						want = true
-					}
-				}
-				if has != want {
-					fail("hascap-mismatch", "round %d: HasCapability(%q)=%v, acknowledged and not deleted=%v", k, p, has, want)
-				}
-				if removalAware && has {
-					for rname := range removed {
-						if asciiLower(rname) == asciiLower(p) {
-							fail("ack-removal-ignored", "round %d: HasCapability(%q)=true after the server acknowledged its removal (ACK :-%s)", k, p, rname)
-						}
+				if want := lookup(ledger, p); has != want {
+					if has == lookup(ledgerLit, p) {
+						fail("ack-removal-ignored", "round %d: HasCapability(%q)=%v; with \"-name\" in CAP ACK read as the acknowledged removal of name it must be %v", k, p, has, want)
+					} else {
+						fail("hascap-mismatch", "round %d: HasCapability(%q)=%v, acknowledged and not deleted=%v", k, p, has, want)
 					}
 				}
 			}
@@ -862,7 +877,7 @@ func capSessionSuite(name string, removal bool, fixed func() []Case) *Suite {
 			evs := genCapEvents(r, removal)
 			return append(Case{bits, sup, capSessionProbes(evs)}, evs...)
 		},
-		Run: func(c Case) Result { return runCapSession(c, removal) },
+		Run: func(c Case) Result { return runCapSession(c) },
 	}
 }
 
